@@ -4,6 +4,8 @@ CONSTANTS
   GenSeed = 1
   NCases = 0
   Emit = FALSE
+  MinV = 1
+  TwoStatus = FALSE
 INIT InitA
 NEXT NextA
 INVARIANT InvA
